@@ -39,15 +39,23 @@ func (c *Config) CountField(name string, opts ...Option) (int, error) {
 		return len(c.fields.array()) + len(c.fields.dict()), nil
 	}
 
-	if v, ok := c.fields.get(name); ok {
-		n, err := v.Len(makeOptions(opts))
-		if err != nil {
-			ctx := v.Context()
-			return n, raisePathErr(err, v.meta(), "", ctx.path("."))
-		}
-		return n, nil
+	// the name is a path: it is split at the path separator given in opts
+	o := makeOptions(opts)
+	p := parsePathWithOpts(name, o)
+	v, perr := p.GetValue(c, o)
+	if perr != nil {
+		return -1, perr
 	}
-	return -1, raiseMissing(c, name)
+	if v == nil {
+		return -1, raiseMissing(c, name)
+	}
+
+	n, err := v.Len(o)
+	if err != nil {
+		ctx := v.Context()
+		return n, raisePathErr(err, v.meta(), "", ctx.path("."))
+	}
+	return n, nil
 }
 
 // Bool reads a boolean setting returning an error if the setting has no
